@@ -17,6 +17,7 @@ import Np.Model.Maps
 import Np.Model.Div
 import Np.Model.Text
 import Np.Model.Print
+import Np.Model.PrintText
 /-! line-protocol driver: one JSON case per line on stdin, the model's answer per line on stdout -/
 open Lean Np Np.Shape
 
@@ -433,6 +434,25 @@ def runCase (j : Json) : E Json := do
       Json.mkObj [("text", text), ("tokens", Json.arr (toks.map fun t =>
         Json.arr #[showCoef t.coef, toJson t.expo, toJson t.coefShown]).toArray)]
     pure (Json.mkObj [("status", "ok"), ("kind", "print"), ("elements", Json.arr elems.toArray)])
+  | "printint" =>
+    -- text level (C16): integer coefficients, default display strings; text printed by the proved renderer + what the
+    -- proved reader makes of it
+    let a ← parseArr (← j.getObjVal? "a")
+    let opts := (j.getObjVal? "opts").toOption.getD (Json.mkObj [])
+    let g := jBoolD opts "display_graded" true
+    let r := jBoolD opts "display_reverse" false
+    let inv := jBoolD opts "display_inverse" true
+    let m := size a.shape
+    let elems := (List.finRange m).map fun i =>
+      let ts : List (Expo × Int) := a.poly.terms.map fun t => (t.1, (t.2.get i).re.num)
+      let toks := Print.printTokens g r inv ts
+      let text := PrintText.renderStr a.poly.names toks
+      let back := PrintText.readStr a.poly.names text
+      Json.mkObj [("text", String.ofList (text.map Char.ofNat)),
+        ("read", match back with
+          | some l => Json.arr (l.map fun t => Json.arr #[toJson t.1, toJson t.2]).toArray
+          | none => Json.null)]
+    pure (Json.mkObj [("status", "ok"), ("kind", "printint"), ("elements", Json.arr elems.toArray)])
   | _ => throw s!"bad-op {op}"
 
 def step (line : String) : String :=
